@@ -101,12 +101,92 @@ def _syntax_transformers():
                 n.body, n.orelse = n.orelse, n.body
             return n
 
-    return {"annotated constant locals (x: int = 3)": Annotate, "augmented assignments written out (x = x + v)": AugPlain,
+    class Hoist(ast.NodeTransformer):  # f(a + b) -> _t = a + b; f(_t)   in simple statements
+        def __init__(self):
+            self.k = 0
+
+        def _blk(self, body):
+            out = []
+            for s in body:
+                if isinstance(s, ast.FunctionDef):
+                    s.body = self._blk(s.body)
+                    out.append(s)
+                    continue
+                if isinstance(s, ast.ClassDef):
+                    s.body = self._blk(s.body)
+                    out.append(s)
+                    continue
+                for fld in ("body", "orelse", "finalbody"):
+                    if isinstance(getattr(s, fld, None), list):
+                        setattr(s, fld, self._blk(getattr(s, fld)))
+                for h in getattr(s, "handlers", []) or []:
+                    h.body = self._blk(h.body)
+                if isinstance(s, (ast.Assign, ast.Expr, ast.Return)) and isinstance(getattr(s, "value", None), ast.Call):
+                    c = s.value
+                    for i, a in enumerate(c.args):
+                        if isinstance(a, ast.BinOp) and not any(isinstance(x, (ast.Lambda, ast.ListComp, ast.GeneratorExp, ast.List)) for x in ast.walk(a)):
+                            self.k += 1
+                            nm = f"_tmp{self.k}"
+                            out.append(ast.copy_location(ast.Assign(targets=[ast.Name(id=nm, ctx=ast.Store())], value=a), s))
+                            c.args[i] = ast.Name(id=nm, ctx=ast.Load())
+                out.append(s)
+            return out
+
+        def visit_Module(self, n):
+            n.body = [b if not isinstance(b, (ast.FunctionDef, ast.ClassDef)) else self._blk([b])[0] for b in n.body]
+            return n
+
+    return {"annotated constant locals (x: int = 3)": Annotate, "arithmetic call arguments hoisted into temporaries": Hoist, "augmented assignments written out (x = x + v)": AugPlain,
             "print('trace') added to every function and loop body": Trace, "operands of every product swapped": SwapMult,
             "every ordering comparison written the other way round": FlipCmp, "every if/else negated with its branches swapped": NegIf}
 
 
-SYNTAX_VARIANTS = [Variant("package-wide: " + k, "benign", []) for k in _syntax_transformers()]
+KWSTYLE = Variant("package-wide: positional arguments of calls to package functions written as keywords", "benign", [])
+SYNTAX_VARIANTS = [Variant("package-wide: " + k, "benign", []) for k in _syntax_transformers()] + [KWSTYLE]
+
+
+def _keyword_style(sources: Dict[str, str]) -> Dict[str, str]:
+    import ast
+
+    trees = {m: ast.parse(s) for m, s in sources.items() if not m.startswith(("schema:", "file:"))}
+    byname: Dict[str, list] = {}
+    for t in trees.values():
+        for n in ast.walk(t):
+            if isinstance(n, ast.ClassDef):
+                for b in n.body:
+                    if isinstance(b, ast.FunctionDef):
+                        a = b.args
+                        ps = [x.arg for x in a.args]
+                        static = any(isinstance(d, ast.Name) and d.id == "staticmethod" for d in b.decorator_list)
+                        if not static and ps and ps[0] in ("self", "cls"):
+                            ps = ps[1:]
+                        byname.setdefault(b.name, []).append(None if (a.vararg or a.posonlyargs) else ps)
+                        b._seen = True  # type: ignore[attr-defined]
+        for n in ast.walk(t):
+            if isinstance(n, ast.FunctionDef) and not getattr(n, "_seen", False):
+                a = n.args
+                byname.setdefault(n.name, []).append(None if (a.vararg or a.posonlyargs) else [x.arg for x in a.args])
+
+    class Kw(ast.NodeTransformer):
+        def visit_Call(self, n):
+            self.generic_visit(n)
+            nm = n.func.attr if isinstance(n.func, ast.Attribute) else (n.func.id if isinstance(n.func, ast.Name) else None)
+            c = byname.get(nm, [])
+            if len(c) != 1 or c[0] is None or nm == "__init__" or not n.args or any(isinstance(a, ast.Starred) for a in n.args) or len(n.args) > len(c[0]):
+                return n
+            used = {k.arg for k in n.keywords}
+            if any(p in used for p in c[0][: len(n.args)]):
+                return n
+            n.keywords = [ast.keyword(arg=p, value=v) for p, v in zip(c[0], n.args)] + n.keywords
+            n.args = []
+            return n
+
+    out = dict(sources)
+    for m, t in trees.items():
+        t = Kw().visit(t)
+        ast.fix_missing_locations(t)
+        out[m] = ast.unparse(t) + "\n"
+    return out
 
 
 class _Renamer:
@@ -175,6 +255,8 @@ def apply(sources: Dict[str, str], v: Variant) -> Optional[Dict[str, str]]:
             if not mod.startswith(("schema:", "file:")):
                 out[mod] = _Renamer.module(src)
         return out
+    if v.name == KWSTYLE.name:
+        return _keyword_style(sources)
     if v.name.startswith("package-wide: "):
         import ast
 
